@@ -17,6 +17,11 @@ for d in "$here"/seeded/C*/; do
     if ! git -C "$repo" apply "$d/patch.diff" 2>/dev/null; then echo "$name: patch does not apply to this tree (skipped)"; continue; fi
     out=$("$here/check" "$prop" "$tier" 2>&1); rc=$?
     git -C "$repo" checkout -q -- .
+    # REGRESS_KEEP=<dir>: keep the minimised replay files of every change (witness scenarios for corpus/witnesses/)
+    if [ -n "${REGRESS_KEEP:-}" ] && ls "$here"/replays/*.json >/dev/null 2>&1; then
+        mkdir -p "$REGRESS_KEEP/$name" && cp "$here"/replays/*.json "$REGRESS_KEEP/$name/" 2>/dev/null
+    fi
+    rm -rf "$here/replays"
     hits=$(echo "$out" | grep -E "^hits:" | head -1)
     c19=$(echo "$out" | grep -cE "^VIOLATION")
     if [ $rc -eq 1 ]; then echo "$name: caught  ${hits:-violations=$c19}"; else echo "$name: MISSED (rc=$rc)"; missed=$((missed+1)); fi
